@@ -141,6 +141,7 @@ def check(src, rep):
     rep.assumptions = ["dict construction: later keys win; str.lower/startswith semantics"]
     rep.trusted_base = ["CPython ast", "sa/consteval.py", "sa/absint.py", "sa/objinterp.py"]
     it = ObjInterp(src)
+    it.check_views = True
     fold = it.folder
     C = "termformatconstants"
     fg = fold.const(C, "FG_COLORS", dict)
